@@ -23,7 +23,7 @@ import (
 
 func init() {
 	core.Register(&H{name: "h2batcher", props: []string{"C08"}})
-	core.Register(&H{name: "h2retry", props: []string{"C09"}, retry: true})
+	core.Register(&H{name: "h2retry", props: []string{"C09", "C08"}, retry: true})
 }
 
 type AddOp struct {
@@ -461,6 +461,22 @@ func (h *H) Run(cc core.Cfg, sim *simrt.Sim) *core.Outcome {
 	}
 	o.NonTrivial["C08"] = r.maxOverlap >= 2 || r.stopRacedAdd || r.finishedOutOfOrder
 	o.NonTrivial["C09"] = r.anyRetry()
+	if r.cfg.Retry != nil {
+		// the batcher's own clauses (every added event committed once, after its send returned; nothing stuck) hold
+		// for the batcher inside a RetriableBatcher too: what a retry run reports about them also counts for C08
+		o.NonTrivial["C08"] = o.NonTrivial["C08"] || r.anyRetry()
+		for _, v := range append([]core.Violation(nil), o.Violations...) {
+			if v.Prop != "C09" {
+				continue
+			}
+			for _, pre := range []string{"stuck/", "add-never-returned", "sent-not-committed", "commit-before-send-returned", "double-commit", "died/"} {
+				if strings.HasPrefix(v.Signature, pre) {
+					o.Violate("C08", v.Signature, "%s", v.Detail)
+					break
+				}
+			}
+		}
+	}
 	o.Probes["later-batch-finished-first"] += b2i(r.finishedOutOfOrder)
 	o.Probes["stop-raced-add"] += b2i(r.stopRacedAdd)
 	o.Probes["sends-overlapped"] += b2i(r.maxOverlap >= 2)
